@@ -106,6 +106,11 @@ def caller_coords(xs, lb, ub, mask, norm):
     return out
 
 
+def off_grid(xs, ints) -> bool:
+    """An integer component of the (physical-coordinates) point is not an integer."""
+    return any(it and Fraction(t).denominator != 1 for t, it in zip(xs, ints))
+
+
 def dyadic(xs) -> bool:
     return not any(c.denominator & (c.denominator - 1) for c in xs)
 
@@ -118,9 +123,26 @@ def gen_case(rng) -> dict[str, Any]:
     cfg = [rng.chance(0.6), rng.chance(0.85), rng.chance(0.7), rng.chance(0.6), rng.chance(0.2)]
     case["cfg"] = [int(b) for b in cfg]
     fns = {}
-    for name, kind in (("f", "obj"), ("g", "cstr"), ("o", "obs")):
-        linear = rng.chance(0.35)
-        rows = gen_fn(rng, dim, linear)
+    # function roles: objective, inequality constraint, observable (evaluated at every new iteration), and optionally an
+    # equality constraint and an observable outside the new-iteration list; in "twin" cases the SAME user polynomial is
+    # attached in every role (own callables, own Jacobian container), so that a role treated differently shows at once
+    roles = [("f", "obj"), ("g", "cstr"), ("o", "obs")]
+    if rng.chance(0.5):
+        roles.append(("h", "cstr-eq"))
+    if rng.chance(0.5):
+        roles.append(("w", "obs-noiter"))
+    twin = rng.chance(0.4)
+    if twin:
+        case["tags"] = [*tags, "roles:same-user-function-in-every-role"]
+    shared = None
+    for name, kind in roles:
+        if twin and shared is not None:
+            linear, rows = shared
+            rows = json.loads(json.dumps(rows))
+        else:
+            linear = rng.chance(0.35)
+            rows = gen_fn(rng, dim, linear)
+            shared = (linear, rows)
         sparse = rng.pick(SPARSE_FORMATS) if rng.chance(0.45) else False
         flat = len(rows) == 1 and not sparse and rng.chance(0.5)
         fns[name] = {"rows": rows, "linear": linear, "sparse": sparse, "flat": flat, "kind": kind}
@@ -145,9 +167,10 @@ def gen_case(rng) -> dict[str, Any]:
                 hi = u if u is not None else lo + 4
                 if it:
                     v = Fraction(rng.randint(math.ceil(lo), math.floor(hi)))
-                    # off-grid integer components force rounding: only meaningful when rounding is requested;
-                    # fractional parts on both sides of 1/2 (and 1/2 itself), positive and negative values
-                    if rnd and normalized and rng.chance(0.6) and lo < hi:
+                    # off-grid integer components (fractional parts on both sides of 1/2 and 1/2 itself, positive and
+                    # negative values): with rounding they are rounded (normalized or physical coordinates); in
+                    # physical coordinates WITHOUT rounding the function is evaluated at the off-grid point itself
+                    if (rnd or not normalized) and rng.chance(0.6) and lo < hi:
                         v = min(max(v + rng.pick(INT_OFFSETS), lo), hi)
                     x.append(v)
                 else:
@@ -159,7 +182,8 @@ def gen_case(rng) -> dict[str, Any]:
         cur = caller_coords(sh.flat("value"), lb, ub, mask, normalized)
         if not dyadic(cur):
             cur = None
-    vias = ["direct", "direct", "direct", "func", "ef-norm", "ef-phys"]
+    vias = ["direct", "direct", "direct", "func", "ef-norm", "ef-phys", "nio"]
+    names = ["f", *fns]
     reqs = []
     for _ in range(rng.pick([1, 3, 6, 10, 16, 24])):
         via = rng.pick(vias)
@@ -173,7 +197,13 @@ def gen_case(rng) -> dict[str, Any]:
         # entry point: the function itself (evaluate/jac, or the func pointer), or
         # EvaluationProblem.evaluate_functions with the design vector given in normalized ("ef-norm") or
         # physical ("ef-phys") coordinates, or taken from the current value of the design space ("ef-cur")
-        reqs.append([rng.pick(["f", "f", "g", "o"]), rng.pick(["val", "val", "jac"]), [rat(t) for t in x], via])
+        # "nio": the observable as held by EvaluationProblem.new_iter_observables (always physical coordinates)
+        name = rng.pick(names)
+        if via == "nio":
+            name = "o"
+        if via == "ef-norm" and not normalized and off_grid(x, ints):
+            via = "ef-phys"  # a normalized design vector is rounded while it is unnormalized: keep the caller's point
+        reqs.append([name, rng.pick(["val", "val", "jac"]), [rat(t) for t in x], via])
     case["reqs"] = reqs
     case["reuse_array"] = rng.chance(0.5)
     return case
@@ -235,16 +265,32 @@ def build_problem(case):
             mf = MDOLinearFunction(coeffs, name, value_at_zero=lg.c)
         else:
             mf = MDOFunction(lg.func, name, jac=lg.jac)
-        if fn["kind"] == "obj":
+        kind = fn.get("kind", "obj")
+        if kind == "obj":
             pb.objective = mf
-        elif fn["kind"] == "cstr":
+        elif kind == "cstr":
             pb.add_constraint(mf, constraint_type=MDOFunction.ConstraintType.INEQ)
+        elif kind == "cstr-eq":
+            pb.add_constraint(mf, constraint_type=MDOFunction.ConstraintType.EQ)
+        elif kind == "obs-noiter":
+            pb.add_observable(mf, new_iter=False)
         else:
             pb.add_observable(mf)
     norm, db, sj, rnd, ssj = case_cfg(case)
     pb.preprocess_functions(is_function_input_normalized=norm, use_database=db, round_ints=rnd, store_jacobian=sj,
                             support_sparse_jacobian=ssj)
-    fmap = {"f": pb.objective, "g": pb.constraints[0], "o": pb.observables[0]}
+    # every function is fetched AFTER preprocessing from the public accessor of its role
+    fmap = {}
+    for name, fn in case["fns"].items():
+        kind = fn.get("kind", "obj")
+        if kind == "obj":
+            fmap[name] = pb.objective
+        elif kind.startswith("cstr"):
+            fmap[name] = next(c for c in pb.constraints if c.name == name)
+        else:
+            fmap[name] = next(o for o in pb.observables if o.name == name)
+            if kind == "obs":
+                fmap["nio:" + name] = next(o for o in pb.new_iter_observables if o.name == name)
     return pb, fmap, log
 
 
@@ -301,6 +347,18 @@ def run_impl(case):
                 via = "direct"  # not dyadic: keep the exact stream
             else:
                 xa = np.array([float(c) for c in conv])
+        target = fmap[name]
+        if via == "nio":
+            # the observable of the new-iteration list takes physical coordinates whatever the configuration: the same
+            # request as through the observable itself when the functions take physical coordinates; with normalized
+            # functions only a value request at a point without off-grid integer component is the same request
+            xs = [Fraction(t) for t in x]
+            conv = [l + xi * (u - l) if (norm_cfg and nm) else xi for xi, l, u, nm in zip(xs, lbs, ubs, mask)]
+            if "nio:" + name in fmap and (not norm_cfg or (kind == "val" and not off_grid(conv, ints_) and dyadic(conv))):
+                target = fmap["nio:" + name]
+                xa = np.array([float(c) for c in conv])
+            else:
+                via = "direct"
         if reuse:
             if buf is None or buf.shape != xa.shape:
                 buf = xa.copy()
@@ -318,18 +376,18 @@ def run_impl(case):
                     dv, dv_norm = xa, via == "ef-norm"
                 outs, jacs = pb.evaluate_functions(
                     design_vector=dv, design_vector_is_normalized=dv_norm,
-                    output_functions=[fmap[name]] if kind == "val" else None,
-                    jacobian_functions=[fmap[name]] if kind == "jac" else None,
+                    output_functions=[target] if kind == "val" else None,
+                    jacobian_functions=[target] if kind == "jac" else None,
                 )
                 if kind == "val":
                     o = ",".join(num(t) for t in np.atleast_1d(outs[name]))
                 else:
                     o = fmt_mat(jacs[name])
             elif kind == "val":
-                out = fmap[name].func(xa) if via == "func" else fmap[name].evaluate(xa)
+                out = target.func(xa) if via == "func" else target.evaluate(xa)
                 o = ",".join(num(t) for t in np.atleast_1d(out))
             else:
-                out = fmap[name].jac(xa)
+                out = target.jac(xa)
                 o = fmt_mat(out)
         except Exception as e:  # noqa: BLE001
             answers.append("X:" + common.exc_class(e))
@@ -341,7 +399,7 @@ def run_impl(case):
             break
         calls = ";".join(f"{n}:{k}:{prats(p)}" for n, k, p in log) or "[]"
         answers.append(f"out={o} db={dump_db(pb)} calls={calls}")
-        obs.append({"out": o, "new_calls": log[n0:], "db": dump_db(pb), "n_calls_total": len(log)})
+        obs.append({"out": o, "new_calls": log[n0:], "db": dump_db(pb), "n_calls_total": len(log), "via": via})
     return answers, obs, linear_fns
 
 
@@ -405,7 +463,12 @@ def oracle(case, answers, obs, linear_fns) -> list[tuple[int, str, str]]:
             if not is_lin_norm and (cn != name or cp != p):
                 bad.append((i, "call-at-wrong-point", f"original {cn} called at {prats(cp)} for a request at physical point {rats(p)}"))
         if db:
-            key = tuple(p)
+            # the point a record belongs to: the physical point p.  Functions taking physical coordinates with rounding
+            # receive a point x whose integer components may be off-grid: the property does not say whether "the
+            # physical point" of the record is x itself or its rounded image p (where the function is evaluated), so a
+            # record under either is accepted there, and memoization is demanded for the same caller's point only.
+            rec_pts = [p] if (norm or p == xs) else [xs, p]
+            key = tuple(p) if norm else tuple(xs)
             tag = (key, name, kind)
             stored_kind = kind == "val" or sj
             if tag in recorded:
@@ -421,7 +484,7 @@ def oracle(case, answers, obs, linear_fns) -> list[tuple[int, str, str]]:
             if len(set(keys)) != len(keys):
                 bad.append((i, "db-duplicate-key", f"database holds the same point twice: {ob['db']}"))
             if stored_kind:
-                ent = dict(entries).get(rats(p))
+                ent = next((dict(entries)[rats(q)] for q in rec_pts if rats(q) in dict(entries)), None)
                 if ent is None:
                     bad.append((i, "db-missing-physical-point", f"after {kind} {name} the database has no entry under the physical point {rats(p)}: {ob['db']}"))
                 else:
@@ -494,8 +557,15 @@ def in_scope(case) -> bool:
             return False
         xs = [Fraction(t) for t in x]
         for t, p, l, u, it in zip(raw(xs), phys(xs), lb, ub, ints):
-            if it and t.denominator != 1 and not (norm and rnd):
-                return False
+            if it and t.denominator != 1:
+                # off-grid integer component: in scope with rounding (the physical point is the rounded one), and without
+                # rounding in physical coordinates (the physical point is the caller's point); NOT with normalized
+                # coordinates without rounding (unnormalize_vect rounds, a normalized MDOLinearFunction does not), nor
+                # through a normalized design vector handed to functions of physical coordinates (rounded on the way)
+                if norm and not rnd:
+                    return False
+                if not norm and r and r[0] == "ef-norm":
+                    return False
             if (l is not None and p < l) or (u is not None and p > u):
                 return False
         if r and r[0] == "ef-cur":
@@ -535,11 +605,17 @@ def histogram(res: Result, case):
     raw, _, _ = make_phys(case)
     for r in case["reqs"]:
         res.count("via:" + (r[3] if len(r) > 3 else "direct"))
-        for t, it in zip(raw([Fraction(c) for c in r[2]]), ints):
+        rw = raw([Fraction(c) for c in r[2]])
+        if off_grid(rw, ints):
+            kind = case["fns"][r[0]].get("kind", "obj")
+            res.count(f"off-grid-int:normalized={int(cfg[0])},round_ints={int(cfg[3])}:role={kind}:{r[1]}")
+        res.count("request-role:" + case["fns"][r[0]].get("kind", "obj"))
+        for t, it in zip(rw, ints):
             if it and t.denominator != 1:
                 fr = t - math.floor(t)
                 res.count("int-component-fraction" + ("<1/2" if fr < Fraction(1, 2) else "=1/2" if fr == Fraction(1, 2) else ">1/2")
                           + ("(negative)" if t < 0 else "(positive)"))
+    res.count("roles:" + "+".join(fn.get("kind", "obj") for fn in case["fns"].values()))
     for fn in case["fns"].values():
         m = len(fn["rows"])
         kind = "linear" if fn["linear"] else "nonlinear"
@@ -552,6 +628,9 @@ def check_case(res: Result, case, model_answers):
     answers, obs, linear_fns = run_impl(case)
     res.evaluations += 1
     histogram(res, case)
+    for ob in obs:
+        if ob.get("via") == "nio":
+            res.count("effective-via:new_iter_observables")
     if obs and "edit_rejected" in obs[0]:
         res.disagreements += 1
         res.violate("correspondence", "space-edit-rejected",
@@ -616,7 +695,7 @@ def neighbours(case, i):
         c["reqs"] = reqs[:j] + reqs[j + 1 : i + 1]
         if c["reqs"]:
             yield c
-    for b in (1, 2, 4):
+    for b in (1, 2, 3, 4):
         c = strip(case)
         c["cfg"] = [int(x) for x in case_cfg(case)]
         c["cfg"][b] = 1 - c["cfg"][b]
